@@ -20,10 +20,31 @@ type quantAssumed struct {
 	hole  string // placeholder constant standing for the bound variable
 	body  string // instance template (range constraints included)
 	sort  string // SMT sort of the bound variable
+	// skOnly: instantiate only at goal skolem constants (callee postconditions), not at
+	// every index term
+	skOnly bool
 }
 
 // noteQuantAssumed records an assumed clause if it has the supported shape.
 func (g *fgen) noteQuantAssumed(env *cenv, c clause, guard string) {
+	g.noteQuant(env, c, guard, false)
+}
+
+// multiVarForall: the clause is (P ==>)* forall x, y, ... :: body.
+func (g *fgen) multiVarForall(c clause) bool {
+	e := c.e
+	for {
+		if b, ok := e.(*cBinary); ok && b.op == "==>" {
+			e = b.y
+			continue
+		}
+		break
+	}
+	q, ok := e.(*cQuant)
+	return ok && q.forall && len(q.vars) > 1
+}
+
+func (g *fgen) noteQuant(env *cenv, c clause, guard string, skOnly bool) (ninst int) {
 	defer func() {
 		if r := recover(); r != nil {
 			if _, ok := r.(transErr); !ok {
@@ -42,41 +63,84 @@ func (g *fgen) noteQuantAssumed(env *cenv, c clause, guard string) {
 		break
 	}
 	q, ok := e.(*cQuant)
-	if !ok || !q.forall || len(q.vars) != 1 {
-		return
+	if !ok || !q.forall || len(q.vars) == 0 {
+		return 0
 	}
-	t, err := g.resolveType(q.vars[0].typ, env.pkg)
-	if err != nil {
-		return
+	vars := map[string]val{}
+	var holes, sorts, binders []string
+	var wfs []string
+	for _, qv := range q.vars {
+		t, err := g.resolveType(qv.typ, env.pkg)
+		if err != nil {
+			return 0
+		}
+		srt := g.sortOf(t)
+		g.nfresh++
+		hole := fmt.Sprintf("q!hole!%d", g.nfresh)
+		vars[qv.name] = val{hole, t, srt}
+		holes = append(holes, hole)
+		sorts = append(sorts, srt)
+		binders = append(binders, fmt.Sprintf("(%s %s)", hole, srt))
+		if _, isB := t.Underlying().(*types.Basic); isB {
+			wfs = append(wfs, g.wf(hole, t, "", 0))
+		}
 	}
-	srt := g.sortOf(t)
-	g.nfresh++
-	hole := fmt.Sprintf("q!hole!%d", g.nfresh)
-	inner := env.with(map[string]val{q.vars[0].name: {hole, t, srt}})
+	inner := env.with(vars)
 	var parts []string
 	for _, p := range pre {
 		parts = append(parts, env.bool(p))
 	}
-	if _, isB := t.Underlying().(*types.Basic); isB {
-		parts = append(parts, g.wf(hole, t, "", 0))
-	}
+	parts = append(parts, wfs...)
 	var qside []string
 	inner.qside = &qside
-	inner.qbind = append(append([]string{}, env.qbind...), fmt.Sprintf("(%s %s)", hole, srt))
+	inner.qbind = append(append([]string{}, env.qbind...), binders...)
 	ib := inner.bool(q.body)
 	// loads under the binder are well formed (memory-model invariant): part of every
 	// instance
 	body := implies(and(parts...), and(append(qside, ib)...))
-	qa := quantAssumed{guard: guard, hole: hole, body: body, sort: srt}
+	// witness terms named by the contract: all combinations of matching sort
+	ninst = g.instantiateWitnesses(guard, holes, sorts, body)
+	if len(holes) != 1 {
+		return
+	}
+	qa := quantAssumed{guard: guard, hole: holes[0], body: body, sort: sorts[0], skOnly: skOnly}
 	g.quantReqs = append(g.quantReqs, qa)
-	if srt == "Int" {
+	if sorts[0] == "Int" && !skOnly {
 		for _, t := range g.instTerms {
 			g.fact(qa.guard, strings.ReplaceAll(qa.body, qa.hole, t))
 		}
 	}
+	return ninst
 }
 
-var reGoalForall = regexp.MustCompile(`^\(forall \(\(([A-Za-z0-9_!]+) ([A-Za-z]+)\)\) `)
+// instantiateWitnesses emits the instances of an assumed universal clause at the
+// witness terms of the function's contract (`witness e, ...`): logical consequences.
+func (g *fgen) instantiateWitnesses(guard string, holes, sorts []string, body string) (n int) {
+	if len(g.witTerms) == 0 {
+		return 0
+	}
+	var rec func(i int, cur string)
+	rec = func(i int, cur string) {
+		if n >= 128 {
+			return
+		}
+		if i == len(holes) {
+			n++
+			g.fact(guard, cur)
+			return
+		}
+		for _, w := range g.witTerms {
+			if w.sort == sorts[i] {
+				rec(i+1, strings.ReplaceAll(cur, holes[i], w.t))
+			}
+		}
+	}
+	rec(0, body)
+	return n
+}
+
+var reGoalForall = regexp.MustCompile(`^\(forall \(((?:\([A-Za-z0-9_!]+ [A-Za-z]+\) ?)+)\) `)
+var reBinder = regexp.MustCompile(`\(([A-Za-z0-9_!]+) ([A-Za-z]+)\)`)
 
 // skolemizeGoal: a goal of the form (forall ((x S)) body) is proved for a fresh
 // constant, and every assumed single-variable universal clause over the same sort is
@@ -86,16 +150,18 @@ func (g *fgen) skolemizeGoal(goal string) string {
 	if m == nil || !strings.HasSuffix(goal, ")") {
 		return goal
 	}
-	v, srt := m[1], m[2]
 	body := goal[len(m[0]) : len(goal)-1]
 	if !balanced(body) {
 		return goal
 	}
-	sk := g.fresh("sk", srt)
-	body = strings.ReplaceAll(body, v, sk)
-	for _, qa := range g.quantReqs {
-		if qa.sort == srt {
-			g.fact(qa.guard, strings.ReplaceAll(qa.body, qa.hole, sk))
+	for _, b := range reBinder.FindAllStringSubmatch(m[1], -1) {
+		v, srt := b[1], b[2]
+		sk := g.fresh("sk", srt)
+		body = replaceSym(body, v, sk)
+		for _, qa := range g.quantReqs {
+			if qa.sort == srt {
+				g.fact(qa.guard, strings.ReplaceAll(qa.body, qa.hole, sk))
+			}
 		}
 	}
 	return body
@@ -112,8 +178,31 @@ func (g *fgen) instantiateAt(t string) {
 	g.instDone[t] = true
 	g.instTerms = append(g.instTerms, t)
 	for _, qa := range g.quantReqs {
-		if qa.sort == "Int" {
+		if qa.sort == "Int" && !qa.skOnly {
 			g.fact(qa.guard, strings.ReplaceAll(qa.body, qa.hole, t))
 		}
 	}
+}
+
+// replaceSym replaces whole-symbol occurrences of v (so q!i!1 does not hit q!i!12).
+func replaceSym(s, v, by string) string {
+	var b strings.Builder
+	for i := 0; i < len(s); {
+		j := strings.Index(s[i:], v)
+		if j < 0 {
+			b.WriteString(s[i:])
+			break
+		}
+		j += i
+		end := j + len(v)
+		if end < len(s) && (s[end] == '!' || s[end] == '_' || (s[end] >= '0' && s[end] <= '9') || (s[end] >= 'a' && s[end] <= 'z') || (s[end] >= 'A' && s[end] <= 'Z')) {
+			b.WriteString(s[i:end])
+			i = end
+			continue
+		}
+		b.WriteString(s[i:j])
+		b.WriteString(by)
+		i = end
+	}
+	return b.String()
 }
